@@ -353,7 +353,7 @@ pub fn run(ctx: &Ctx, rep: &Report) {
                 v.push((a.icao.clone(), a.lat, a.lon, "icao"));
             }
         }
-        if ctx.thorough() {
+        {
             for a in &apts {
                 if a.iata.len() == 3 && a.iata.chars().all(|c| c.is_ascii_alphanumeric()) {
                     v.push((a.iata.clone(), a.lat, a.lon, "iata"));
@@ -362,7 +362,7 @@ pub fn run(ctx: &Ctx, rep: &Report) {
         }
         v
     };
-    let step = if ctx.thorough() { 1 } else { 8 };
+    let step = 1;
     let sel: Vec<&(String, f64, f64, &str)> = codes.iter().step_by(step).collect();
     par_ranges(ctx.threads, sel.len() as u64, 16, |lo, hi| {
         let mut o = BTreeMap::new();
@@ -449,7 +449,7 @@ pub fn run(ctx: &Ctx, rep: &Report) {
     rep.set_bound(&format!("grammar product ({} strings), all strings of length <= {maxlen} over 12 symbols ({}), {} well-formed specifications x table forms, {} airport codes, 2 extra processes", specs.len(), shorts.len(), wf.len(), sel.len()));
     rep.assume("well-formed means host and port explicit (or the documented ':port' / 'rtlsdr:' forms); websocket table URLs are written with an explicit port and path");
     if !ctx.thorough() {
-        rep.not_exhaustive("quick tier: reduced reference alphabet, strings up to length 4, every 8th airport code");
+        rep.not_exhaustive("quick tier: reduced reference alphabet, strings up to length 4");
     }
 }
 
